@@ -5,10 +5,10 @@ Property theorems only; helper lemmas are in `Lemmas/CIMap.lean`, the model of t
 `Model/CIMap.lean`, the reference model (what the reader has to agree with) in
 `Spec/OrderedMap.lean`.
 -/
-import PybtexModel.Lemmas.CIMap
+import PybtexModel.Lemmas.CIMapU
 
 namespace Pybtex.Props
-open Pybtex CIDict
+open Pybtex Pybtex.Uni Pybtex.Uni.CIDict
 variable {V : Type}
 
 /-- The code's two tables stay in lock step — same lower-cased keys in the same order, no
@@ -38,7 +38,7 @@ theorem C13_refines_nonvacuous :
       [.set "UNO".toList 7, .del "Dos".toList, .get "uno".toList, .iter]).2
       = [.unit, .unit, .val 7, .keys ["UNO".toList]] := by decide
 
-theorem C13_lookup_ignores_case (d : CIDict V) (k k' : Str) (h : lower k = lower k') :
+theorem C13_lookup_ignores_case (d : CIDict V) (k k' : Str) (h : lowerU k = lowerU k') :
     getItem d k = getItem d k' ∧ contains d k = contains d k' := by
   simp [getItem, contains, h]
 
@@ -46,7 +46,7 @@ theorem C13_lookup_ignores_case (d : CIDict V) (k k' : Str) (h : lower k = lower
 remembered spelling by the new one, and stores the value. -/
 theorem C13_overwrite_keeps_position (d : CIDict V) (hd : CIDict.Inv d) (k : Str) (v : V)
     (hk : contains d k = true) :
-    (∃ pre sp post, iter d = pre ++ sp :: post ∧ lower sp = lower k ∧
+    (∃ pre sp post, iter d = pre ++ sp :: post ∧ lowerU sp = lowerU k ∧
         iter (setItem d k v) = pre ++ k :: post) ∧
     getItem (setItem d k v) k = some v ∧ len (setItem d k v) = len d := by
   have hs := abs_setItem hd k v
@@ -61,7 +61,7 @@ theorem C13_overwrite_keeps_position (d : CIDict V) (hd : CIDict.Inv d) (k : Str
     | cons e m ih =>
       obtain ⟨l, sp, w⟩ := e
       simp only [OMap.has, OMap.get] at hh
-      by_cases hl : l = lower k
+      by_cases hl : l = lowerU k
       · refine ⟨[], sp, OMap.keys m, by simp [OMap.keys], ?_, by simp [OMap.set, hl, OMap.keys]⟩
         rw [← hl]; exact (hwf (l, sp, w) (by simp)).symm
       · rw [if_neg hl] at hh
@@ -79,9 +79,9 @@ theorem C13_overwrite_keeps_position (d : CIDict V) (hd : CIDict.Inv d) (k : Str
       split
       · rename_i hl; simp [OMap.get, hl]
       · rename_i hl; simp [OMap.get, hl, ih]
-  · have h1 : lower k ∈ d.dict.map Prod.fst := (dhas_iff_mem _ _).1 hk
-    have : (dset d.dict (lower k) v).length = d.dict.length := by
-      have := congrArg List.length (dset_keys_of_mem d.dict (lower k) v h1)
+  · have h1 : lowerU k ∈ d.dict.map Prod.fst := (dhas_iff_mem _ _).1 hk
+    have : (dset d.dict (lowerU k) v).length = d.dict.length := by
+      have := congrArg List.length (dset_keys_of_mem d.dict (lowerU k) v h1)
       simpa using this
     simpa [len, setItem] using this
 
@@ -89,11 +89,11 @@ theorem C13_overwrite_keeps_position (d : CIDict V) (hd : CIDict.Inv d) (k : Str
 theorem C13_first_insertion_order (d : CIDict V) (k : Str) (v : V)
     (hk : contains d k = false) (hd : CIDict.Inv d) :
     iter (setItem d k v) = iter d ++ [k] ∧ getItem (setItem d k v) k = some v := by
-  have hnot : lower k ∉ d.keys.map Prod.fst := by
+  have hnot : lowerU k ∉ d.keys.map Prod.fst := by
     rw [← hd.1]
-    apply (dget_none_iff d.dict (lower k)).1
+    apply (dget_none_iff d.dict (lowerU k)).1
     simp only [contains, dhas] at hk
-    cases h : dget d.dict (lower k) with
+    cases h : dget d.dict (lowerU k) with
     | none => rfl
     | some x => rw [h] at hk; simp at hk
   constructor
@@ -105,29 +105,29 @@ value, the remaining keys keep their order, and the length drops by one. -/
 theorem C13_delete_exact (d : CIDict V) (hd : CIDict.Inv d) (k : Str) (hk : contains d k = true) :
     (delItem d k).2 = true ∧
     contains (delItem d k).1 k = false ∧
-    (∀ k', lower k' ≠ lower k → getItem (delItem d k).1 k' = getItem d k') ∧
+    (∀ k', lowerU k' ≠ lowerU k → getItem (delItem d k).1 k' = getItem d k') ∧
     (iter (delItem d k).1).Sublist (iter d) ∧
     len (delItem d k).1 + 1 = len d := by
-  have hkeys : dhas d.keys (lower k) = true := by rw [zipT_has_keys hd.1]; exact hk
-  have hk' : dhas d.dict (lower k) = true := hk
-  have heq : delItem d k = (⟨ddel d.dict (lower k), ddel d.keys (lower k)⟩, true) := by
+  have hkeys : dhas d.keys (lowerU k) = true := by rw [zipT_has_keys hd.1]; exact hk
+  have hk' : dhas d.dict (lowerU k) = true := hk
+  have heq : delItem d k = (⟨ddel d.dict (lowerU k), ddel d.keys (lowerU k)⟩, true) := by
     simp [delItem, hk', hkeys]
   rw [heq]
-  have hmem : lower k ∈ d.dict.map Prod.fst := by
+  have hmem : lowerU k ∈ d.dict.map Prod.fst := by
     apply Classical.byContradiction
     intro hn
-    have := (dget_none_iff d.dict (lower k)).2 hn
+    have := (dget_none_iff d.dict (lowerU k)).2 hn
     simp [dhas, this] at hk'
   refine ⟨rfl, ?_, ?_, ?_, ?_⟩
   · simp only [contains, dhas]
     have hn : (d.dict.map Prod.fst).Nodup := by rw [hd.1]; exact hd.2.1
-    have := (dget_none_iff _ _).2 (ddel_not_mem d.dict (lower k) hn)
+    have := (dget_none_iff _ _).2 (ddel_not_mem d.dict (lowerU k) hn)
     simp [this]
   · intro k' hne
     simp [getItem, dget_ddel_ne _ _ _ hne]
-  · exact (ddel_sublist d.keys (lower k)).map Prod.snd
+  · exact (ddel_sublist d.keys (lowerU k)).map Prod.snd
   · simp only [len]
-    have := congrArg List.length (ddel_keys d.dict (lower k))
+    have := congrArg List.length (ddel_keys d.dict (lowerU k))
     simp only [List.length_map] at this
     rw [this, List.length_erase_of_mem hmem]
     have : 0 < (d.dict.map Prod.fst).length := List.length_pos_of_mem hmem
@@ -137,21 +137,21 @@ theorem C13_delete_exact (d : CIDict V) (hd : CIDict.Inv d) (k : Str) (hk : cont
 /-- Length, containment, iteration and `items()` always agree with each other. -/
 theorem C13_len_contains_iter_agree (d : CIDict V) (hd : CIDict.Inv d) :
     len d = (iter d).length ∧
-    (∀ k, contains d k = true ↔ lower k ∈ (iter d).map lower) ∧
+    (∀ k, contains d k = true ↔ lowerU k ∈ (iter d).map lowerU) ∧
     (∃ its, items d = some its ∧ its.map Prod.fst = iter d ∧
        ∀ p ∈ its, getItem d p.1 = some p.2) := by
   refine ⟨?_, ?_, ?_⟩
   · simp [len, iter, lock_length hd.1]
   · intro k
-    have hl : (iter d).map lower = d.keys.map Prod.fst := by
+    have hl : (iter d).map lowerU = d.keys.map Prod.fst := by
       simp only [iter, List.map_map]
       apply List.map_congr_left
       intro e he
       simp [hd.2.2 e he]
     rw [hl, ← hd.1]
     simp only [contains, dhas]
-    have := dget_none_iff d.dict (lower k)
-    cases h : dget d.dict (lower k) with
+    have := dget_none_iff d.dict (lowerU k)
+    cases h : dget d.dict (lowerU k) with
     | none => simp [this.1 h]
     | some x =>
       simp only [Option.isSome_some, true_iff]
@@ -168,16 +168,16 @@ theorem C13_len_contains_iter_agree (d : CIDict V) (hd : CIDict.Inv d) :
       | cons e m ih =>
         obtain ⟨l, sp, w⟩ := e
         simp only [OMap.items, List.map_cons, List.mem_cons] at hp
-        have hl : l = lower sp := hwf.1 (l, sp, w) (by simp)
+        have hl : l = lowerU sp := hwf.1 (l, sp, w) (by simp)
         rcases hp with hp | hp
         · subst hp; simp [OMap.get, hl]
         · have hnd := hwf.2
           simp only [List.map_cons, List.nodup_cons] at hnd
-          have hne : l ≠ lower p.1 := by
+          have hne : l ≠ lowerU p.1 := by
             intro he
             apply hnd.1
             obtain ⟨e', he', hpe⟩ := List.mem_map.1 hp
-            have : e'.1 = lower e'.2.1 := hwf.1 e' (List.mem_cons_of_mem _ he')
+            have : e'.1 = lowerU e'.2.1 := hwf.1 e' (List.mem_cons_of_mem _ he')
             rw [he, ← hpe]
             exact List.mem_map.2 ⟨e', he', this⟩
           simp only [OMap.get, if_neg hne]
@@ -185,8 +185,8 @@ theorem C13_len_contains_iter_agree (d : CIDict V) (hd : CIDict.Inv d) :
 
 /-- Case-lowering: the keys are lower-cased, order and values are kept. -/
 theorem C13_lower (d : CIDict V) (hd : CIDict.Inv d) :
-    ∃ d', lowered d = some d' ∧ CIDict.Inv d' ∧ iter d' = (iter d).map lower ∧
-      items d' = (items d).map (fun its => its.map fun p => (lower p.1, p.2)) := by
+    ∃ d', lowered d = some d' ∧ CIDict.Inv d' ∧ iter d' = (iter d).map lowerU ∧
+      items d' = (items d).map (fun its => its.map fun p => (lowerU p.1, p.2)) := by
   obtain ⟨d', h1, h2, h3⟩ := lowered_spec hd
   have hwf := (abs_wf hd).1
   refine ⟨d', h1, h2, ?_, ?_⟩
@@ -206,7 +206,7 @@ theorem C13_default_no_insert (d : CIDict V) (k : Str) (dflt : V) (hk : getItem 
   simp [CIDict.step, getItemDefault, hk]
 
 /-- Frame: writing or deleting one key leaves the lookup of every other key unchanged. -/
-theorem C13_frame (d : CIDict V) (k k' : Str) (v : V) (hne : lower k' ≠ lower k) :
+theorem C13_frame (d : CIDict V) (k k' : Str) (v : V) (hne : lowerU k' ≠ lowerU k) :
     getItem (setItem d k v) k' = getItem d k' ∧ getItem (delItem d k).1 k' = getItem d k' := by
   constructor
   · simp [getItem, setItem, dget_dset_ne _ _ _ _ hne]
@@ -215,7 +215,7 @@ theorem C13_frame (d : CIDict V) (k k' : Str) (v : V) (hne : lower k' ≠ lower 
     · split <;> simp [getItem, dget_ddel_ne _ _ _ hne]
     · rfl
 
-/-- The case-insensitive set: every history of add / discard / remove / lookups / lower from
+/-- The case-insensitive set: every history of add / discard / remove / lookups / lowerU from
 any initial list behaves like the reference set, and the set of lower-cased keys stays equal to
 the key table's domain. -/
 theorem C13_set_refines (init : List Str) (ops : List SOp) :
